@@ -63,8 +63,26 @@ func (a Int64) ConvertConstScalar(t ScalarType) ConstScalar {
   switch t {
   case Int64Type:
     return a
+  // constant types: convert the stored value directly (a detour through
+  // float64 loses the low bits of large integers)
+  case ConstInt8Type:
+    return ConstInt8(a.GetInt8())
+  case ConstInt16Type:
+    return ConstInt16(a.GetInt16())
+  case ConstInt32Type:
+    return ConstInt32(a.GetInt32())
+  case ConstInt64Type:
+    return ConstInt64(a.GetInt64())
+  case ConstIntType:
+    return ConstInt(a.GetInt())
+  case ConstFloat32Type:
+    return ConstFloat32(a.GetFloat32())
+  case ConstFloat64Type:
+    return ConstFloat64(a.GetFloat64())
   default:
-    return NewConstScalar(t, a.GetFloat64())
+    r := NullScalar(t)
+    r.Set(a)
+    return r
   }
 }
 func (a Int64) ConvertScalar(t ScalarType) Scalar {
